@@ -593,7 +593,7 @@ class Emitter:
         return "\n".join(self.lines) + "\n"
 
 
-def emit_unit(em, repo, u, type_table, log):
+def emit_unit(em, repo, u, type_table, log, assumed=False):
     h = u["head"]
     name = h["unit"]
     src = Source(repo, h["file"])
@@ -677,6 +677,9 @@ def emit_unit(em, repo, u, type_table, log):
     attr = h.get("attr")
     if attr:
         em.add(attr, kind="meta", unit=name)
+    if assumed:
+        # modular verification: this program only uses the CONTRACT of the unit (it is proved in another program)
+        em.add("#[verifier::external_body]  // contract proved in another program (see evidence: assumed_units)", kind="meta", unit=name)
     em.add("%sfn %s(%s)%s" % (vis, h.get("rename", h["fn"]), ", ".join(new_params), ret_txt),
            kind="sig", unit=name, src=h["file"], line=f["line0"])
     for secname in ("requires", "ensures"):
@@ -692,6 +695,11 @@ def emit_unit(em, repo, u, type_table, log):
                     em.add("        " + ln.strip() + tail, kind=secname, unit=name, label=lab, ufile=u["path"], uline=s["line0"] + off, clause=ln.strip())
     for s in _sections(u, "decreases"):
         em.add("    decreases " + " ".join(x.strip() for x in s["lines"] if x.strip()), kind="decreases", unit=name)
+    if assumed:
+        em.add("{ unimplemented!() }", kind="meta", unit=name)
+        import hashlib
+        return dict(canary=False, assumed=True, unit=name, file=h["file"], fn=h["fn"], impl=h.get("impl"), lines=[f["line0"], f["line1"]],
+                    sha256=hashlib.sha256(text_of(toks[f["kfn"]:f["b_close"] + 1]).encode()).hexdigest()[:16])
     em.add("{", kind="meta", unit=name)
     for l in lets:
         em.add("    " + l, kind="R2", unit=name)
